@@ -158,7 +158,7 @@ Section Customs.
   Definition dims_dec (mask : Z) : dec (Z * list Z) :=
     if bit mask 6 then
       dl <- read_i 4 ;;
-      if (dl <? 0)%Z then fail EOther
+      if ((dl <? 0) || (max_variant_array_dimensions <? dl))%Z then fail EOther
       else r <- remaining ;;
            if (r / 4 <? dl)%Z then fail EEOF
            else tick (Z.to_N (4 * dl)) ;;;
@@ -170,7 +170,8 @@ Section Customs.
     intros a e mask. unfold bnd. intros bs HL. unfold dims_dec. destruct (bit mask 6); [|fin].
     eapply bnd_at_mono; [|apply N.le_refl| |apply N.le_refl|discriminate]; [|shelve].
     step (read_i_bnd L (a + 4) e 4).
-    destruct (x <? 0)%Z eqn:E0; [unfold bnd_at, fail; lia|]. apply Z.ltb_ge in E0.
+    destruct ((x <? 0) || (max_variant_array_dimensions <? x))%Z eqn:E0; [unfold bnd_at, fail; lia|].
+    apply orb_false_iff in E0. destruct E0 as [E0 Emd]. apply Z.ltb_ge in E0, Emd.
     eapply bnd_at_bind; [apply (bnd_remaining L); lenL|]. intros rr r' al' E' _. inversion E'; subst rr r' al'. clear E'.
     destruct (blen r / 4 <? x)%Z eqn:E1; [unfold bnd_at, fail; lia|]. apply Z.ltb_ge in E1.
     assert (HLr : ln r <= L) by lenL.
@@ -186,13 +187,14 @@ Section Customs.
 
   (* what a successful dims_dec tells: the count is non-negative, four bytes were consumed per dimension, 4 * count <= L *)
   Lemma dims_dec_ok : forall mask bs dl ds r al, ln bs <= L -> dims_dec mask bs = Ok (dl, ds) r al ->
-    (0 <= dl)%Z /\ Z.to_N dl <= ln bs - ln r /\ 4 * Z.to_N dl <= L.
+    (0 <= dl)%Z /\ Z.to_N dl <= ln bs - ln r /\ Z.to_N dl <= 32.
   Proof.
     intros mask bs dl ds r al HL E. unfold dims_dec in E. destruct (bit mask 6).
-    2:{ inversion E; subst. cbn. split; [lia|split; apply N.le_0_l]. }
+    2:{ inversion E; subst. cbn. split; [lia|split; [apply N.le_0_l|lia]]. }
     unfold bind at 1 in E. pose proof (read_i_bnd L 0 0 4 bs HL) as Hi. unfold bnd_at in Hi.
     destruct (read_i 4 bs) as [x r1 al1|? ?|?|] eqn:Ei; try discriminate. destruct Hi as [Li _]. cbn [sb Nat.leb] in Li.
-    destruct (x <? 0)%Z eqn:E0; [cbn in E; discriminate|]. apply Z.ltb_ge in E0.
+    destruct ((x <? 0) || (max_variant_array_dimensions <? x))%Z eqn:E0; [cbn in E; discriminate|].
+    apply orb_false_iff in E0. destruct E0 as [E0 Emd]. apply Z.ltb_ge in E0, Emd. unfold max_variant_array_dimensions in Emd.
     unfold bind at 1 in E. cbn [remaining] in E.
     destruct (blen r1 / 4 <? x)%Z eqn:E1; [cbn in E; discriminate|]. apply Z.ltb_ge in E1.
     unfold bind at 1 in E. cbn [tick] in E.
@@ -210,19 +212,19 @@ Section Customs.
 
   Definition KV : N := 65535 * 88.
 
-  Lemma vals_dec_bnd : forall tid alen, (-1 <= alen <= 65535)%Z ->
-    bnd L (ar + cr + 88) 0 (er + cr + KV) false (vals_dec tid alen).
+  Lemma vals_dec_bnd : forall tid alen bs, ln bs <= L -> (alen <= blen bs)%Z ->
+    bnd_at (ar + cr + 88) 0 (er + cr) false (vals_dec tid alen) bs.
   Proof.
-    intros tid alen Ha. unfold bnd. intros bs HL. unfold vals_dec. destruct (alen =? -1)%Z eqn:E1; [fin|]. apply Z.eqb_neq in E1.
+    intros tid alen bs HL Ha. unfold vals_dec. destruct (alen =? -1)%Z eqn:E1; [fin|]. apply Z.eqb_neq in E1.
     pose proof (bnd_absorb L _ ar cr er _ (dec_builtin_bnd tid)) as Hb.
     assert (Hdn : bnd L (ar + cr) 0 (er + cr) false (bind (dec_n (dec_builtin rec tid) (Z.to_nat alen)) (fun l => ret (Some l)))).
     { apply (bnd_bind L _ _ (ar + cr) 0 0 (er + cr) false false); [apply (dec_n_bnd L _ _ _ true); exact Hb|]. intros l. apply bnd_ret. }
     pose proof (variant_elsize_le tid) as Hve.
-    eapply bnd_at_mono; [apply (bnd_upfront_at _ (ar + cr) (er + cr) false (variant_elsize tid) (65535 * variant_elsize tid)
-                                  (Z.to_N alen * variant_elsize tid)); [apply (Hdn bs HL)| |]|lia|apply N.le_refl|unfold KV; lia|auto].
+    eapply bnd_at_mono; [apply (bnd_upfront_at _ (ar + cr) (er + cr) false (variant_elsize tid) 0
+                                  (Z.to_N alen * variant_elsize tid)); [apply (Hdn bs HL)| |]|lia|apply N.le_refl|lia|auto].
     - intros y ry aly Ey. pose proof (dec_n_ret_used L _ _ _ _ _ (dec_builtin rec tid) (Z.to_nat alen) _ Hb bs y ry aly HL Ey) as Hu.
       rewrite (N.mul_comm (Z.to_N alen)). apply N.mul_le_mono_l. unfold ln. lia.
-    - assert (Z.to_N alen <= 65535) by lia. pose proof (N.mul_le_mono_r _ _ (variant_elsize tid) H). lia.
+    - rewrite N.add_0_r, (N.mul_comm (Z.to_N alen)). apply N.mul_le_mono_l. unfold ln, blen in *. lia.
   Qed.
 
   Lemma vals_dec_ok : forall tid alen bs vals r al, ln bs <= L -> vals_dec tid alen bs = Ok vals r al ->
@@ -237,10 +239,10 @@ Section Customs.
     inversion Ey; subst. unfold ln. lia.
   Qed.
 
-  Lemma dec_variant_bnd : bnd L (ar + cr + 92 + 7 * L) (56 + cr) (er + cr + KV) true (dec_variant rec).
+  Lemma dec_variant_bnd : bnd L (ar + cr + 956) (56 + cr) (er + cr) true (dec_variant rec).
   Proof.
     unfold bnd. intros bs HL. unfold dec_variant.
-    set (A := ar + cr + 92 + 7 * L). set (E := er + cr + KV).
+    set (A := ar + cr + 956). set (E := er + cr).
     eapply bnd_at_mono with (a := A) (e := E); [|apply N.le_refl| |apply N.le_refl|].
     - step (bnd_tick L A E 56). step (read_byte_bnd L A E). cbv zeta.
       eapply bnd_at_mono with (a := A) (c := cr) (e := E) (s := false);
@@ -250,10 +252,13 @@ Section Customs.
       destruct (negb (bit x0 7)).
       { eapply bnd_at_mono; [eapply bnd_at_bind; [apply (dec_builtin_bnd (x0 mod 64)); lenL|intros v rv alv Ev Lrv; fin]
                             |unfold A; lia|lia|unfold E; lia|discriminate]. }
-      eapply bnd_at_mono with (c := 0 + (0 + 0)) (s := true || (false || false)); [|apply N.le_refl|apply N.le_0_l|apply N.le_refl|auto].
+      eapply bnd_at_mono with (c := 0 + (0 + (0 + 0))) (s := true || (false || (false || false))); [|apply N.le_refl|apply N.le_0_l|apply N.le_refl|auto].
       step (read_i_bnd L A E 4).
       destruct (max_variant_array_length <? x1)%Z eqn:Emax; [unfold bnd_at, fail; lia|]. apply Z.ltb_ge in Emax.
       destruct (x1 <? -1)%Z eqn:Emin; [unfold bnd_at, fail; lia|]. apply Z.ltb_ge in Emin.
+      (* the array length is compared with the remaining bytes before anything is allocated *)
+      eapply bnd_at_bind; [apply (bnd_remaining L); lenL|]. intros rem r1' al1' E1' _. inversion E1'; subst rem r1' al1'. clear E1'.
+      destruct (blen r1 <? x1)%Z eqn:Erem; [unfold bnd_at, fail; lia|]. apply Z.ltb_ge in Erem.
       change (bnd_at A (0 + 0) E (false || false)
                 (bind (vals_dec (x0 mod 64) x1) (fun vals => bind (dims_dec x0) (fun dd =>
                    let '(dl, ds) := dd in
@@ -265,17 +270,16 @@ Section Customs.
                         | None => ret (VVariant x0 x1 dl ds (Some (split (map Z.to_nat ds) [])))
                         end))) r1).
       assert (HLr1 : ln r1 <= L) by lenL.
-      (* elements: rate ar + cr + 88; then the continuation, whose constant is at most 6 L per element byte *)
-      eapply bnd_at_mono; [apply (bnd_at_bind_post _ _ (ar + cr + 88 + 4 + L) (6 * L) 0 0 E false false)|unfold A; lia|lia|apply N.le_refl|auto].
-      + eapply bnd_at_mono; [apply (vals_dec_bnd (x0 mod 64) x1); [unfold max_variant_array_length in Emax; lia|exact HLr1]
-                            |lia|apply N.le_refl|apply N.le_refl|auto].
+      (* elements: rate ar + cr + 88; then the continuation, whose constant is at most 768 per element byte (<= 32 dimensions) *)
+      eapply bnd_at_mono; [apply (bnd_at_bind_post _ _ (ar + cr + 88 + 4 + 96) 768 0 0 E false false)|unfold A; lia|lia|apply N.le_refl|auto].
+      + eapply bnd_at_mono; [apply (vals_dec_bnd (x0 mod 64) x1 r1 HLr1 Erem)|lia|apply N.le_refl|apply N.le_refl|auto].
       + intros vals rv alv Ev Lrv. pose proof (vals_dec_ok _ _ _ _ _ _ HLr1 Ev) as Hv.
         assert (HLrv : ln rv <= L) by lenL.
-        set (cV := match vals with Some _ => 6 * L * Z.to_N x1 | None => 0 end).
+        set (cV := match vals with Some _ => 768 * Z.to_N x1 | None => 0 end).
         eapply bnd_at_mono with (c := cV + 0); [|apply N.le_refl| |apply N.le_refl|intros H; exact H].
         2:{ unfold cV. destruct vals; [|apply N.le_0_l]. rewrite N.add_0_r, N.add_0_r. apply N.mul_le_mono_l. exact Hv. }
-        (* dimensions: rate + 4; then the reshaping, at most L per dimension byte plus 6 L per element *)
-        eapply bnd_at_mono; [apply (bnd_at_bind_post _ _ (ar + cr + 88 + 4) L 0 cV E false false)|lia|lia|apply N.le_refl|auto].
+        (* dimensions: rate + 4; then the reshaping: 3 d^2 <= 96 d for d <= 32 dimensions, 24 n d <= 768 n *)
+        eapply bnd_at_mono; [apply (bnd_at_bind_post _ _ (ar + cr + 88 + 4) 96 0 cV E false false)|lia|lia|apply N.le_refl|auto].
         * eapply bnd_at_mono; [apply (dims_dec_bnd (ar + cr + 88) E x0 rv HLrv)|lia|apply N.le_refl|apply N.le_refl|auto].
         * intros [dl ds] rd ald Ed Lrd. destruct (dims_dec_ok _ _ _ _ _ _ HLrv Ed) as [Hdl0 [Hdlu HdlL]].
           assert (HLrd : ln rd <= L) by lenL.
@@ -286,11 +290,11 @@ Section Customs.
           eapply bnd_at_mono; [step (bnd_tick L (ar + cr + 88 + 4) E (24 * Z.to_N x1 * Z.to_N dl + 3 * Z.to_N dl * Z.to_N dl)); fin
                               |apply N.le_refl| |apply N.le_refl|auto].
           unfold cV. set (d := Z.to_N dl) in *. set (n := Z.to_N x1) in *. set (u := ln rv - ln rd) in *.
-          assert (H1 : 24 * n * d <= 6 * L * n).
-          { replace (24 * n * d) with (6 * (4 * d) * n) by lia. apply N.mul_le_mono_r. apply N.mul_le_mono_l. exact HdlL. }
-          assert (H2 : 3 * d * d <= L * u).
-          { apply N.le_trans with (4 * d * d); [apply N.mul_le_mono_r; lia|].
-            apply N.le_trans with (L * d); [apply N.mul_le_mono_r; exact HdlL|]. apply N.mul_le_mono_l. lia. }
+          assert (H1 : 24 * n * d <= 768 * n).
+          { replace (24 * n * d) with (24 * d * n) by lia. apply N.mul_le_mono_r. lia. }
+          assert (H2 : 3 * d * d <= 96 * u).
+          { apply N.le_trans with (96 * d); [replace (3 * d * d) with (3 * d * d) by reflexivity; apply N.mul_le_mono_r; lia|].
+            apply N.mul_le_mono_l. exact Hdlu. }
           lia.
     - lia.
     - reflexivity.
